@@ -77,7 +77,7 @@ fn real_main() {
                 "coverage": cov,
                 "assumptions": [
                     "reference models (harness/src/spec.rs) and the trigger predicates of known findings (harness/src/taint.rs) are correct",
-                    "histories are limited to <= 5 replicas, <= 3 keys/members, <= 3 nesting levels, <= 120 ops; nothing outside was observed",
+                    "replicated-system histories are limited to <= 11 replicas, <= 12 distinct keys/members, <= 3 nesting levels, <= 128 ops (lists up to ~100 elements; the C13 long-sequence workload reaches ~350), dot counters up to ~2^40; nothing outside was observed",
                     "the serde Serialize impls expose the complete private state (used for dumps)"
                 ],
                 "wall_s": wall, "violations": v.violations.len(),
